@@ -29,11 +29,12 @@ const rule = "case = (setup state, steps); steps are debugger command lines (wor
 
 // Step is one action of a case.
 type Step struct {
-	Op   string   `json:"op"`             // cmd | start | release | stop | boe | finish
-	Prog string   `json:"prog,omitempty"` // start: program name
-	Flag bool     `json:"flag,omitempty"` // boe: value for BreakOnError; start: set the program's canonical breakpoint first
-	Word string   `json:"word,omitempty"` // cmd: command word
-	Args []string `json:"args,omitempty"` // cmd: arguments ($-tokens are resolved against the live state)
+	Op    string   `json:"op"`              // cmd | start | release | stop | boe | finish
+	Prog  string   `json:"prog,omitempty"`  // start: program name
+	Flag  bool     `json:"flag,omitempty"`  // boe: value for BreakOnError; start: set the program's canonical breakpoint first
+	Reuse bool     `json:"reuse,omitempty"` // start: run on the id of the last finished thread (as the console does)
+	Word  string   `json:"word,omitempty"`  // cmd: command word
+	Args  []string `json:"args,omitempty"`  // cmd: arguments ($-tokens are resolved against the live state)
 }
 
 // Case is a setup state plus a step sequence.
@@ -63,7 +64,7 @@ func (s *session) setup(name string) *hx.Failure {
 			var f *hx.Failure
 			switch {
 			case strings.HasPrefix(st, "start "):
-				if err := s.start(st[6:]); err != nil {
+				if err := s.start(st[6:], false); err != nil {
 					return hx.Failf("setup-error", "cannot start %v: %v", st[6:], err)
 				}
 				if !s.quiesce() {
@@ -341,10 +342,16 @@ func runCase(c Case) (fail *hx.Failure) {
 					return f
 				}
 			}
-			if err := s.start(st.Prog); err != nil {
+			if err := s.start(st.Prog, st.Reuse); err != nil {
 				return hx.Failf("setup-error", "cannot start %v: %v", st.Prog, err)
 			}
 			hx.E.Class("step.start."+st.Prog, 1)
+			for _, old := range s.threads[:len(s.threads)-1] {
+				if old.tid == s.threads[len(s.threads)-1].tid {
+					hx.E.Class("step.start.reused-id", 1)
+					break
+				}
+			}
 		case "release":
 			if !s.release() {
 				hx.E.Class("step.noop", 1)
@@ -571,7 +578,7 @@ var opWeights = func() []string {
 func drawStep(rt *rapid.T) Step {
 	switch rapid.SampledFrom(opWeights).Draw(rt, "op") {
 	case "start":
-		return Step{Op: "start", Prog: rapid.SampledFrom(progNames).Draw(rt, "prog"), Flag: rapid.Bool().Draw(rt, "bp")}
+		return Step{Op: "start", Prog: rapid.SampledFrom(progNames).Draw(rt, "prog"), Flag: rapid.Bool().Draw(rt, "bp"), Reuse: rapid.Bool().Draw(rt, "reuse")}
 	case "release":
 		return Step{Op: "release"}
 	case "stop":
